@@ -79,6 +79,17 @@ def run(ctx):
             ctx.violation('gradient-shape', 'nd_scipy.Gradient for x of shape %r returns shape %r, expected %r' % (shp, np.shape(G), want_shape), desc)
         elif not np.allclose(G, 3.0 * (g + 2 * x).reshape(want_shape), rtol=1e-5, atol=1e-6):
             ctx.violation('gradient-value', 'nd_scipy.Gradient differs from the analytic gradient (extra argument c=3.0 forwarded?)', desc)
+        # memory layout of x must not matter: a Fortran-ordered copy and a transposed view hold the same elements at the same indices
+        if n >= 4 and n % 2 == 0 and k % 2 == 0:
+            X = x.reshape(2, n // 2)
+            gq = lambda t, c=1.0: c * (np.dot(g, np.ravel(t)) + np.sum(np.arange(1, n + 1) * np.ravel(t) ** 3))     # noqa  (non-linear, coordinates not interchangeable)
+            G0 = nds.Gradient(gq, method=method if not boxed else 'central')(X, 3.0)
+            for lname, Xv in (('Fortran-ordered', np.asfortranarray(X)), ('transposed view', np.ascontiguousarray(X.T).T)):
+                Gv = nds.Gradient(gq, method=method if not boxed else 'central')(Xv, 3.0)
+                ctx.count(1, ('grad-layout', lname))
+                if np.shape(Gv) != np.shape(G0) or not np.array_equal(np.asarray(Gv), np.asarray(G0)):
+                    ctx.violation('gradient-layout', 'nd_scipy.Gradient for a %s x of shape (2, %d) differs from the C-ordered array with the same elements (max difference %.3g)' % (
+                        lname, n // 2, float(np.max(np.abs(np.asarray(Gv) - np.asarray(G0)))) if np.shape(Gv) == np.shape(G0) else float('nan')), dict(desc, layout=lname))
         if k < 2:
             ctx.sample({'n': n, 'm': m, 'method': method, 'J_shape': list(np.shape(J)), 'G_shape': list(np.shape(G))})
     # a user-given step is RELATIVE to |x_j| (scipy's rel_step): coordinates with their own length scale s_j, x_j ~ s_j, f varying on that scale
